@@ -94,7 +94,13 @@ DimStats check_dimension(vf::Ctx& c, hep::vegas_pdf<T> const& oldp, hep::vegas_p
     {
         if (s[b] == 0) { continue; }
         LD const r = s[b] / norm;
-        if (!coarse && (r < tiny * 4 || s[b] < tiny * 4)) { st.skipped_model = true; return st; } // ratio or smoothed value underflows in T
+        // a ratio or smoothed value in the subnormal range of T has few bits, but the importance depends on it through its
+        // logarithm only: compare coarsely (below) instead of not at all; values that T flushes to zero are not judged
+        if (!coarse && (r < tiny * 4 || s[b] < tiny * 4))
+        {
+            if (r < static_cast<LD>(std::numeric_limits<T>::denorm_min()) * 64 || s[b] < static_cast<LD>(std::numeric_limits<T>::denorm_min()) * 64) { st.skipped_model = true; return st; }
+            coarse = true;
+        }
         imp[b] = std::pow((r - 1) / std::log(r), static_cast<LD>(alpha));
         sum += imp[b];
         maximp = std::max(maximp, imp[b]);
